@@ -6,6 +6,8 @@
 //!   c11.member          every index (and two beyond) of generated object streams: members of every kind,
 //!                       separators SP / LF / CR LF / none, white-space behind the last member or none
 //!                       → ObjectStream::from_primitive + get_object_slice + data.get(range)
+//!   c11.member.parse    the same slices (`text ++ sep`, the buffer ends there) through the value parser with ANY and with
+//!                       the kind's own flag: Model/Parser.lean (request `c03.parse plain`) against `parse_with_lexer`
 //!   c11.member.outside  damaged headers: wrong /N, wrong /First, offsets out of order / beyond the data /
 //!                       near 2^64 (overflow), signs, comments, missing numbers
 //!   c17.load            (shared with C17) the compressed branch and the indirect /Length of resolve_ref:
@@ -105,6 +107,7 @@ fn member_streams(driver: &Driver, seed: u64, thorough: bool, rep: &mut Report, 
     let n = if thorough { 20_000 } else { 3000 };
     let mut pack_cases = vec![];
     let mut cases = vec![];
+    let mut parse_reqs: Vec<String> = vec![];
     let range = match only { Some(c) => c..c + 1, None => 0..n };
     for case in range {
         let mut rng = Rng::derive(seed, "c11.member", case);
@@ -123,6 +126,10 @@ fn member_streams(driver: &Driver, seed: u64, thorough: bool, rep: &mut Report, 
             // the property-level expectation, independent of the model: text ++ sep
             let mut want = m.text.clone();
             want.extend_from_slice(&m.sep);
+            if want.len() <= 4000 {
+                parse_reqs.push(crate::c03::parse_request("plain", &want, 0, 1023, 0, &vec![], None));
+                parse_reqs.push(crate::c03::parse_request("plain", &want, 0, flags_for(m.kind).bits(), 0, &vec![], None));
+            }
             os.case(&format!("{}#{}", hex(&data[..data.len().min(64)]), i), true, || json!({"members": ms.len(), "index": i, "kind": m.kind}));
             os.count(&format!("kind={}", m.kind));
             os.count(&format!("position={}", pos));
@@ -149,6 +156,16 @@ fn member_streams(driver: &Driver, seed: u64, thorough: bool, rep: &mut Report, 
     }
     rep.streams.push(sp);
     rep.streams.push(st);
+    // the value parser on the slices (`parse(slice, resolve, flags)` of the compressed branch): Model/Parser.lean
+    // through the C03 driver request, with ANY and with the kind's own flag
+    let mut stp = Stream_::new("c11.member.parse", true);
+    let resp = driver.ask(&parse_reqs);
+    for (rq, m) in parse_reqs.iter().zip(resp.iter()) {
+        let (mm, imp) = crate::c03::both_sides(rq, m);
+        stp.count(&format!("outcome={}", mm.split(' ').next().unwrap_or("")));
+        stp.case(rq, &mm, &imp, true);
+    }
+    rep.streams.push(stp);
     rep.oracles.push(os);
     if only.is_some() { return; }
 
